@@ -336,6 +336,66 @@ def apply (f : Callee) (tc : Cat) (t : List Int) : Except Err (Int × Log) := do
   let xs ← getAll t
   invoke f (xs.map (boundArg tc))
 
+/-- `etl::apply(pm, t)` with a pointer to member `pm` and a tuple whose first element is the object:
+    `invoke(pm, get<0>(forward<Tuple>(t)), get<Is>(forward<Tuple>(t))...)` — the object expression is an element
+    of the tuple and so has the tuple's category; `rest` = the remaining elements -/
+def applyMember (mk : ObjK → Callee) (tc : Cat) (rest : List Int) : Except Err (Int × Log) := do
+  let xs ← getAll rest
+  invoke (mk (.obj tc)) (xs.map (boundArg tc))
+
+/-- `not_fn_t<F>::operator()` for any callable `F` (function object, pointer to member: the object is then the first call
+    argument, folded into the callee), and the stateless `not_fn<ConstFn>()`: `not invoke(f, forward<Args>(args)...)`;
+    `pred` = what the target returns (for a data member: whether it is non-zero) -/
+def notFnOf (f : Callee) (pred : Bool) (args : List Arg) : Except Err (Bool × Log) := do
+  let r ← invoke f args
+  .ok (!pred, r.2)
+
+/-- the object bound to a pointer to member by `bind_front(pm, obj)`: stored as `decay_t` — the object itself, a pointer
+    to it (`c`: const-ness of the pointee), or a `reference_wrapper` (`c`: const-ness of the referent) -/
+inductive BoundObj where
+  | obj
+  | ptr (c : Cat)
+  | refw (c : Cat)
+  deriving Repr, DecidableEq, Inhabited
+
+/-- what `forward<BoundArgs>(bound)` of the `q`-qualified wrapper hands to `INVOKE` as the object argument: the stored
+    object with the wrapper's qualification; a stored pointer / reference_wrapper designates its pointee whatever `q` is -/
+def BoundObj.expr (q : Cat) : BoundObj → ObjK
+  | .obj => .obj q
+  | .ptr pc => .ptr pc
+  | .refw pc => .refw pc
+
+/-- `bind_front(pm, obj)(args...)` called through a `q`-qualified wrapper -/
+def bindFrontMember (mk : ObjK → Callee) (q : Cat) (o : BoundObj) (args : List Arg) : Except Err (Int × Log) :=
+  bindFrontCall (fun q' => mk (o.expr q')) q [] args
+
+/-! ## reference_wrapper / function_ref as objects: copy and rebinding
+
+Both hold one pointer to their target (`_ptr` / `_obj` + thunk); the copy constructor and the copy assignment are
+defaulted, i.e. they copy that pointer.  A history is a list of operations on named wrappers, oldest first. -/
+
+inductive RefOp where
+  | bind (w tid : Nat)      -- `W w{target}` / `w = ref(target)`: `_ptr = addressof(target)`
+  | copy (w v : Nat)        -- `W w{v}`: `_ptr{v._ptr}`
+  | assign (w v : Nat)      -- `w = v`: `_ptr = v._ptr`
+  deriving Repr, DecidableEq, Inhabited
+
+/-- one operation on the `_ptr` members of the wrappers (`none`: no such wrapper yet) -/
+def refStep (s : Nat → Option Nat) : RefOp → Nat → Option Nat
+  | .bind w tid => fun x => if x = w then some tid else s x
+  | .copy w v => fun x => if x = w then s v else s x
+  | .assign w v => fun x => if x = w then s v else s x
+
+/-- the `_ptr` members after the history, executed in order -/
+def refPtrs (ops : List RefOp) : Nat → Option Nat := ops.foldl refStep (fun _ => none)
+
+/-- a call through wrapper `w` after the history: `call tid` is what the wrapper does with the target its pointer
+    designates (`refWrapCall` for `reference_wrapper`, `functionRefCall` for `function_ref`) -/
+def refCallAfter {ρ : Type} (ops : List RefOp) (w : Nat) (call : Nat → Except Err ρ) : Except Err ρ :=
+  match refPtrs ops w with
+  | some tid => call tid
+  | none => .error (.pre "call through a wrapper that was never bound")
+
 /-- `etl::make_from_tuple<T>(t)` = `T(get<I>(forward<Tuple>(t))...)`: the constructor arguments in order -/
 def makeFromTuple (t : List Int) : Except Err (List Int) := getAll t
 
@@ -522,6 +582,9 @@ inductive Op where
   | swap (i j : Nat)
   | call (i : Nat) (x : Int)
   | bool (i : Nat)
+  | fswap (i j : Nat)          -- the free `swap(lhs, rhs)`
+  | eqNull (i : Nat)           -- `f == nullptr` and `nullptr == f`
+  | neNull (i : Nat)           -- `f != nullptr` and `nullptr != f`
   deriving Repr, DecidableEq, Inhabited
 
 inductive Out where
@@ -556,6 +619,9 @@ def step (s : St) : Op → Except Err (St × Out × Log)
     let (s1, r, lg) ← call s (.obj i) x
     .ok (s1, .res r, lg)
   | .bool i => .ok (s, .flag (toBool s (.obj i)), [])
+  | .fswap i j => do .ok (← swap s (.obj i) (.obj j), .unit, [])       -- `lhs.swap(rhs)`
+  | .eqNull i => .ok (s, .flag (!toBool s (.obj i)), [])               -- `!static_cast<bool>(f)`
+  | .neNull i => .ok (s, .flag (toBool s (.obj i)), [])                -- `static_cast<bool>(f)`
 
 /-- a whole history: final state, outputs in order, the complete call log -/
 def run : St → List Op → Except Err (St × List Out × Log)
